@@ -40,18 +40,23 @@ CLAIM = {
                  "semantics) + translation validation of the real introspectors and end-to-end twins",
     "text": (
         "Partial (third-party introspection is modelled, not verified). Proved in Lean for every logical model "
-        "(any number of fields, any names/types/defaults/kw-only flags): the shapes the models of the dataclass, "
-        "NamedTuple, attrs and pydantic introspectors produce for the canonical declaration have exactly the logical "
-        "model's (id, type, required, default) per field in declaration order (shape_projection_*); the TypedDict "
-        "shape has them sorted by name with defaults erased; the SQLAlchemy shape has them exactly iff no field is "
-        "an autoincrement primary key / nullable column / None default (sqlalchemy_projection_iff). The model loader, "
-        "dumper and converter linking read the shape only through that projection, hence any two kinds load the same "
-        "input to field-wise equal arguments, report the same missing/bad keys, dump field-wise equal objects to equal "
-        "dicts under every name mapping, and a converter between two kinds links every field to its namesake "
-        "(kinds_agree_*, cross_kind_convert_copies_all); the deviations of TypedDict (no defaults, sorted as_list "
-        "order) and SQLAlchemy are stated as theorems with witnesses. That the real attrs/pydantic/SQLAlchemy/stdlib "
-        "classes are described by the model is established by differential testing only: real get_*_shape vs shapeOf "
-        "on generated canonical and rich declarations, and real Retort.load/dump/get_converter on twins vs the model."
+        "(any number of fields, any names/types/defaults/kw-only flags): a kind yields a shape iff the explicit "
+        "decidable per-kind side conditions hold (declarable_iff: trailing defaults for dataclass/attrs/NamedTuple, no "
+        "underscore names for NamedTuple/pydantic, no factories for NamedTuple, non-colliding stripped init names for "
+        "attrs, a first field as primary key and no nested model column for SQLAlchemy); the shapes the models of the "
+        "dataclass, NamedTuple, attrs and pydantic introspectors produce for the canonical declaration have exactly the "
+        "logical model's (id, type, required, default) per field in declaration order (shape_projection_*); the "
+        "TypedDict shape has them sorted by name with defaults erased; the SQLAlchemy shape has them exactly iff no "
+        "field is an autoincrement primary key / nullable column / None default (sqlalchemy_projection_iff). The model "
+        "loader, dumper and converter linking read the shape only through that projection, hence any two such kinds "
+        "load the same input to the same constructor arguments (field-wise related ones when nested models are loaded "
+        "by kind-specific loaders: kinds_agree_load_nested), report the same missing/bad keys, dump field-wise equal "
+        "objects to equal dicts under every name mapping and omit_default setting, and a converter between any two of "
+        "the six kinds links every field to its namesake (kinds_agree_*, cross_kind_convert_copies_all); the deviations "
+        "of TypedDict (no defaults, sorted as_list order) and SQLAlchemy are stated as theorems with proved witnesses "
+        "(full_strength_fails_*). That the real attrs/pydantic/SQLAlchemy/stdlib classes are described by the model is "
+        "established by differential testing only: real get_*_shape vs shapeOf on generated canonical and rich "
+        "declarations, and real Retort.load/dump/get_converter on twins of all six kinds vs the model."
     ),
     "note": (
         "Trusted: Lean 4.33 kernel; axioms audited each run. The theorems are about the hand-written Lean model of the "
